@@ -6,8 +6,26 @@
   test of `acquire`), `unlock`, `releaseSlot`, `recycle` of one slot with any timestamp — for every slot hash
   `cfg.slotOf` (all collisions), every `latchListCount`, `expireDuration`, every start/commit timestamp.
   The single scheduler goroutine of scheduler.go produces a subset of these interleavings.
+
+  Reading of the property text (properties.jsonl C17) and where each clause is proved:
+  * "between a successful non-stale lock and its unlock no other transaction holds a latch on any of the same
+    keys": `held_exclusive` (any two locks, stale or not), `exclusive`.
+  * "every lock request eventually returns provided holders unlock ... no lost wake-up and no deadlock":
+    `waiter_has_holder`, `wait_for_acyclic`, `deadlock_free`, `lock_step_decreases_variant`,
+    `requests_terminate_holds`, `every_request_returns` (the environment assumption — clients and the scheduler
+    keep taking enabled steps, in particular every holder eventually unlocks — is the hypothesis "the run cannot
+    be extended by a lock step"), `all_requests_can_return`; per-slot FIFO: `waiting_order_kept`,
+    `no_overtaking`; under continual arrivals on other keys: `arrivals_on_other_keys_do_not_delay`,
+    `progress_within`.  NOT claimed: a request whose key keeps being taken by new arrivals on the SAME key
+    between its wake-up and its re-acquire can be sent back to the end of the queue each time (barging is
+    possible in the code: a woken lock is not handed the node unless it is stale) — see `no_barging_full`.
+  * "reported stale exactly when some key it asks for was released by a previous holder with a commit timestamp
+    greater than the requester's start timestamp": `stale_sound`, `stale_exact_acquire`, `stale_exact_wakeup`
+    (the two moments at which a request reaches a key), `stale_complete`, `stale_complete_holder`; a node dropped
+    by `recycle` forgets its publications (`expireDuration`), which the statements make explicit by speaking
+    about the publications remembered by the node (`Node.pubs`) and `node_pubs_published`.
 -/
-import ClientGoVerif.Proofs.LatchStale
+import ClientGoVerif.Proofs.LatchTerm
 namespace CGV.Props.C17
 open CGV CGV.Latch
 
@@ -99,13 +117,128 @@ theorem deadlock_free {cfg : Cfg} {s : State} (hr : Reachable cfg s)
     | waiting => exact absurd hp hw
     | done => exact absurd hp hd
 
-/-- The part of "every request eventually returns" that is NOT proved here: with no new arrivals, every run of
-    lock steps is finite (a bound on the number of steps, e.g. 3·Σ|keys| + 3·#locks).  Together with
-    `deadlock_free` it would give termination of all requests under any scheduler. -/
+/-- `deadlock_free`, contrapositive: the system is stuck (no step of any lock is enabled) only when every
+    request is finished. -/
+theorem stuck_only_when_done {cfg : Cfg} {s : State} (hr : Reachable cfg s)
+    (hstuck : ∀ a s', a.lockStep.isSome → step cfg s a ≠ some s') : AllDone s := by
+  intro l lk hl
+  apply Classical.byContradiction
+  intro hnd
+  obtain ⟨a, l', s', ha, hs⟩ := deadlock_free hr ⟨l, lk, hl, hnd⟩
+  exact hstuck a s' (by simp [ha]) hs
+
+/-- The wait-for relation (a blocked lock waits for the holder of the node it is blocked on) only leads to
+    locks heading for strictly greater keys ... -/
+theorem wait_for_increases {cfg : Cfg} {s : State} (hr : Reachable cfg s) {a b : LockId} {lka lkb : Lock}
+    {ka kb : Key} (hc : WaitChain cfg s a b) (hla : s.locks a = some lka) (hka : lka.nextKey = some ka)
+    (hlb : s.locks b = some lkb) (hkb : lkb.nextKey = some kb) : KLt ka kb :=
+  waitChain_key_lt hr.inv12.1 hc hla hka hlb hkb
+
+/-- ... hence it is acyclic in every reachable state: no lock waits (through any chain of holders) for itself. -/
+theorem wait_for_acyclic {cfg : Cfg} {s : State} (hr : Reachable cfg s) (a : LockId) : ¬ WaitChain cfg s a a :=
+  fun h => waitChain_irrefl hr.inv12.1 h
+
+/-- The variant `mu` (Σ over requests of: 3 per slot still to acquire, 2 per slot to release, + phase weight)
+    strictly decreases on every step performed on behalf of a lock — `acquire` step, `unlock`, `releaseSlot`
+    (a wake-up costs the woken lock +1 and the releaser −2).  New arrivals raise it, the recycler leaves it
+    unchanged. -/
+theorem lock_step_decreases_variant {cfg : Cfg} {s s' : State} {a : Action} (hr : Reachable cfg s)
+    (hs : step cfg s a = some s') (ha : a.lockStep.isSome) : mu s' < mu s :=
+  mu_step hr hs ha
+
+/-- With no new arrivals, every run of lock steps from a reachable state is finite: its length is bounded. -/
 def requests_terminate (cfg : Cfg) : Prop :=
   ∀ s, Reachable cfg s → ∃ bound : Nat, ∀ (as : List Action) (s' : State),
     (∀ a, a ∈ as → a.lockStep.isSome) →
     as.foldlM (fun st a => step cfg st a) s = some s' → as.length ≤ bound
+
+theorem requests_terminate_holds (cfg : Cfg) : requests_terminate cfg :=
+  fun s hr => ⟨mu s, fun as s' hall h => run_bounded as s s' hr hall h⟩
+
+/-- `every_request_returns`: take any run of lock steps (any scheduler, any interleaving of client threads and
+    the scheduler goroutine, no new arrivals) from a reachable state that cannot be extended by a further lock
+    step.  ENVIRONMENT ASSUMPTION, explicit in `hmax`: enabled steps are eventually taken — the clients that
+    hold a lock eventually call `UnLock` (`unlock` is a lock step, enabled whenever `Lock()` has returned), the
+    scheduler goroutine eventually processes `unlockCh` and its wake-up list.  Then the run has at most `mu s`
+    steps and ends with every request finished: each `Lock()` call has returned (success or stale) and each
+    lock has been released. -/
+theorem every_request_returns {cfg : Cfg} {s s' : State} (hr : Reachable cfg s) (as : List Action)
+    (hall : ∀ a, a ∈ as → a.lockStep.isSome) (hrun : run cfg s as = some s')
+    (hmax : ∀ a s'', a.lockStep.isSome → step cfg s' a ≠ some s'') :
+    AllDone s' ∧ as.length ≤ mu s := by
+  refine ⟨stuck_only_when_done (reachable_run as hr hrun) hmax, ?_⟩
+  have key : ∀ (as : List Action) (s : State), run cfg s as = as.foldlM (fun st a => step cfg st a) s := by
+    intro as; induction as with
+    | nil => intro s; rfl
+    | cons a as ih =>
+      intro s; simp only [run, List.foldlM_cons]
+      cases step cfg s a with
+      | none => rfl
+      | some s1 => exact ih s1
+  exact run_bounded as s s' hr hall (by rw [← key]; exact hrun)
+
+/-- ... and such a run exists from every reachable state. -/
+theorem all_requests_can_return {cfg : Cfg} {s : State} (hr : Reachable cfg s) :
+    ∃ as s', (∀ a, a ∈ as → a.lockStep.isSome) ∧ run cfg s as = some s' ∧ AllDone s' :=
+  can_finish (mu s) s hr (Nat.le_refl _)
+
+/-- FIFO, part 1: a step changes a slot's waiting list only by appending the lock that just got
+    `acquireLocked`, or by removing the lock it wakes up — which is the first one in the list that is blocked
+    on the released key.  The relative order of the locks that stay is never changed. -/
+theorem waiting_order_kept {cfg : Cfg} {s s' : State} {a : Action} (hs : step cfg s a = some s') (i : Nat) :
+    (s'.slots i).waiting = (s.slots i).waiting ∨
+    (∃ l, (s'.slots i).waiting = (s.slots i).waiting ++ [l]) ∨
+    (∃ w key, (s'.slots i).waiting = (s.slots i).waiting.erase w ∧
+      (s.slots i).waiting.find? (awaits s key) = some w) := by
+  obtain ⟨s1, h1, e⟩ := step_eff hs
+  rcases h1 with rfl | ⟨j, ts, rfl⟩
+  · exact eff_waiting e i
+  · have h0 : ((recycleSlot cfg s j ts).slots i).waiting = (s.slots i).waiting := by
+      simp only [recycleSlot, upd_apply]; split
+      · next e => subst e; rfl
+      · rfl
+    have h1 : ∀ key, awaits (recycleSlot cfg s j ts) key = awaits s key := fun _ => rfl
+    have := eff_waiting e i
+    rw [h0] at this
+    simpa only [h1] using this
+
+/-- FIFO, part 2 (no overtaking): if `a` stands before `w` in a waiting list and `w` is the lock a release
+    takes out for `key`, then `a` is not blocked on `key`.  So among the requests blocked on one key the
+    earliest is served first. -/
+theorem no_overtaking {cfg : Cfg} {s : State} (hr : Reachable cfg s) {slot : Nat} {key : Key} {w a : LockId}
+    (hw : (s.slots slot).waiting.find? (awaits s key) = some w) {i j : Nat}
+    (hi : (s.slots slot).waiting[i]? = some a) (hj : (s.slots slot).waiting[j]? = some w) (hij : i < j) :
+    awaits s key a = false :=
+  first_in_line (hr.inv2.wok.nodup slot) hw hi hj hij
+
+/-- Arrivals on other keys do not delay a set of requests.  Let `S` be a set of locks whose keys are disjoint
+    from the keys of all other locks (`Sep`), and let the run contain ANY steps — of locks outside `S`, of the
+    recycler, and arrivals of new requests as long as they are not put into `S` and use keys that no lock of
+    `S` uses (`RunSep`; same slot allowed).  Then the number of steps performed on behalf of locks of `S` is at
+    most `muOn S s`: the others can neither take a key from them nor wake them up nor push them back. -/
+theorem arrivals_on_other_keys_do_not_delay {cfg : Cfg} {s s' : State} (S : LockId → Bool) (hr : Reachable cfg s)
+    (hsep : Sep s S) (as : List Action) (hrs : RunSep cfg S s as) (hrun : run cfg s as = some s') :
+    stepsOf S as + muOn S s' ≤ muOn S s ∧ Sep s' S :=
+  run_on_bounded S as s s' hr hsep hrs hrun
+
+/-- ... and while one of them is unfinished, a step of one of them is enabled (deadlock freedom inside `S`,
+    whatever the other requests do).  With the bound above: under the fairness assumption that an enabled step
+    of a lock of `S` is eventually taken, all requests of `S` return after at most `muOn S s` of their own
+    steps, under continual arrivals on other keys. -/
+theorem progress_within {cfg : Cfg} {s : State} (hr : Reachable cfg s) {S : LockId → Bool} (hsep : Sep s S)
+    (hex : ∃ l lk, S l = true ∧ s.locks l = some lk ∧ lk.phase ≠ .done) :
+    ∃ a l s', S l = true ∧ a.lockStep = some l ∧ step cfg s a = some s' :=
+  progress_on hr hsep hex
+
+/-- NOT provable (false for the code as it is): a bound on the steps of ONE request under continual arrivals on
+    ITS OWN key.  `releaseSlot` does not hand the node to the lock it wakes (unless stale); a new request can
+    take the key before the woken lock's `acquire` runs, and the woken lock goes to the end of the waiting list
+    again.  Every such round needs a fresh arrival that releases with a commit ts not above the victim's start
+    ts (otherwise the victim returns stale), so with real timestamps it cannot go on; the model, which allows
+    any timestamps, admits it. -/
+def no_barging_full (cfg : Cfg) : Prop :=
+  ∀ s, Reachable cfg s → ∀ l, ∃ bound : Nat, ∀ (as : List Action) (s' : State),
+    run cfg s as = some s' → stepsOf (fun x => x == l) as ≤ bound
 
 /-- `Lock()` never reaches `panic("should never run here")`: when `acquire` has returned success or stale,
     the lock is stale or has all its slots. -/
@@ -167,6 +300,70 @@ theorem stale_complete_holder {cfg : Cfg} {s : State} (hr : Reachable cfg s) {l 
   have h2 := hr.inv3.held_fresh l lk k n hl hs hh hn
   omega
 
+/-- what a node remembers was really published: every element of `pubs` is a (key, commitTS) of the log of
+    `releaseSlot`s by previous holders of that key, and a non-zero `maxCommitTS` is the greatest of them. -/
+theorem node_pubs_published {cfg : Cfg} {s : State} (hr : Reachable cfg s) {k : Key} {n : Node}
+    (hn : nodeOf cfg s k = some n) :
+    (∀ c, c ∈ n.pubs → (k, c) ∈ s.published ∧ c ≤ n.maxCommitTS) ∧
+    (n.maxCommitTS = 0 ∨ n.maxCommitTS ∈ n.pubs) := by
+  obtain ⟨hm, hk⟩ := findNode_some hn
+  refine ⟨fun c hc => ⟨?_, hr.inv3.pubs_le _ n c hm hc⟩, hr.inv4.max_in_pubs _ n hm⟩
+  rw [← hk]; exact hr.inv4.pubs_published _ n c hm hc
+
+/-- `stale_exact_acquire`: a request that reaches a key through `acquireSlot` is answered `acquireStale`
+    EXACTLY when the key's node (after the recycling at the head of `acquireSlot`) carries a commit timestamp,
+    published by a release of a previous holder, above the request's start timestamp. -/
+theorem stale_exact_acquire {cfg : Cfg} {s s' : State} (hr : Reachable cfg s) {l : LockId} {lk : Lock} {key : Key}
+    {slotID : Nat} {r : AcqRes} (hl : s.locks l = some lk) (hp : lk.phase = .acquiring ∨ lk.phase = .woken)
+    (hst : lk.isStale = false) (hk : lk.keys[lk.acquiredCount]? = some key)
+    (hs : lk.requiredSlots[lk.acquiredCount]? = some slotID) (h : acquireStep cfg s l = some (s', r)) :
+    r = .stale ↔ ∃ n c, nodeOf cfg (preRecycle cfg s slotID lk.startTS) key = some n ∧ c ∈ n.pubs ∧
+      c > lk.startTS := by
+  constructor
+  · intro hrs
+    have hr1 : Reachable cfg (preRecycle cfg s slotID lk.startTS) := by
+      unfold preRecycle; split
+      · exact Reachable.step (.recycle slotID lk.startTS) hr rfl
+      · exact hr
+    have hsl := slot_of_key (hr.inv12.1.wf l lk hl) hk hs
+    have hp' : ¬ (lk.phase ≠ .acquiring ∧ lk.phase ≠ .woken) := by
+      rcases hp with h | h <;> simp [h]
+    simp only [acquireStep, hl, hp', if_false, hst, Bool.false_eq_true, acquireSlot, hk, hs, Option.some.injEq] at h
+    have h2 : r = (acquireCore (preRecycle cfg s slotID lk.startTS) l lk key slotID).2 := by rw [h]
+    rw [hrs] at h2
+    unfold acquireCore at h2
+    dsimp only at h2
+    split at h2
+    · cases h2
+    · next n hf =>
+      split at h2
+      · next hgt =>
+        obtain ⟨hm, _⟩ := findNode_some hf
+        refine ⟨n, n.maxCommitTS, by rw [nodeOf, ← hsl]; exact hf, ?_, hgt⟩
+        rcases hr1.inv4.max_in_pubs _ n hm with h0 | h0
+        · omega
+        · exact h0
+      · split at h2 <;> cases h2
+  · rintro ⟨n, c, hn, hc, hgt⟩
+    obtain ⟨s2, lk2, h2, _⟩ := stale_complete hr hl hp hst hk hs hn hc hgt
+    rw [h] at h2
+    exact (Prod.mk.inj (Option.some.inj h2)).2
+
+/-- `stale_exact_wakeup`: a blocked request `w` that a `releaseSlot` takes out of the waiting list is flagged
+    stale (and handed the node) EXACTLY when the node, after this release, carries a published commit timestamp
+    above `w`'s start timestamp; otherwise it is woken unflagged and meets `stale_exact_acquire` when its
+    `acquire` runs. -/
+theorem stale_exact_wakeup {cfg : Cfg} {s s' : State} (hr : Reachable cfg s) {a : Action}
+    (hs : step cfg s a = some s') {w : LockId} {lkw lkw' : Lock} {key : Key}
+    (hlw : s.locks w = some lkw) (hpw : lkw.phase = .waiting) (hkw : lkw.nextKey = some key)
+    (hlw' : s'.locks w = some lkw') (hpw' : lkw'.phase = .woken) :
+    lkw'.isStale = true ↔ ∃ n c, nodeOf cfg s' key = some n ∧ c ∈ n.pubs ∧ c > lkw.startTS := by
+  obtain ⟨s1, h1, e⟩ := step_eff hs
+  rcases h1 with rfl | ⟨i, ts, rfl⟩
+  · exact eff_wakeup_exact hr.inv12.1 hr.inv12.2 hr.inv3 hr.inv4 e hlw hpw hkw hlw' hpw'
+  · have hr1 : Reachable cfg (recycleSlot cfg s i ts) := Reachable.step (.recycle i ts) hr rfl
+    exact eff_wakeup_exact hr1.inv12.1 hr1.inv12.2 hr1.inv3 hr1.inv4 e hlw hpw hkw hlw' hpw'
+
 /-! ## non-vacuity: reachable states satisfying the hypotheses of the theorems above -/
 
 /-- two locks on different keys, both successful and not stale -/
@@ -217,5 +414,53 @@ example : ∃ s lk n, Reachable cfg0 s ∧ s.locks 1 = some lk ∧ lk.isStale = 
       (0 < lk.acquiredCount ∧ lk.keys[0]? = some k1) ∧ nodeOf cfg0 s k1 = some n ∧ 20 ∈ n.pubs := by latch_eval
   obtain ⟨s, hs, lk, n, h1, h2, ⟨h3, h4⟩, h5⟩ := h
   exact ⟨s, lk, n, reachable_run _ .init hs, h1, h2, ⟨0, h3, h4⟩, h5⟩
+
+/-- `every_request_returns`: from every reachable state a run satisfying its hypotheses exists -/
+example {cfg : Cfg} {s : State} (hr : Reachable cfg s) :
+    ∃ as s', (∀ a, a ∈ as → a.lockStep.isSome) ∧ run cfg s as = some s' ∧
+      (∀ a s'', a.lockStep.isSome → step cfg s' a ≠ some s'') := by
+  obtain ⟨as, s', h1, h2, h3⟩ := all_requests_can_return hr
+  exact ⟨as, s', h1, h2, fun a s'' ha => allDone_stuck h3 a s'' ha⟩
+
+/-- a wait-for edge (lock 1 blocked on the key lock 0 holds) -/
+example : ∃ s, Reachable cfg0 s ∧ WaitChain cfg0 s 1 0 := by
+  have h : ∃ s, run cfg0 Latch.init [.genLock 10 [k1], .genLock 11 [k1], .acquire 0, .acquire 1] = some s ∧
+      WaitsFor cfg0 s 1 0 := by latch_eval2
+  obtain ⟨s, hs, h1⟩ := h
+  exact ⟨s, reachable_run _ .init hs, .single h1⟩
+
+/-- hypotheses of `no_overtaking`: lock 1 (blocked on k2) stands before lock 2 (blocked on k1); a release of k1 takes lock 2 -/
+example : ∃ s, Reachable cfg0 s ∧ (s.slots 0).waiting.find? (awaits s k1) = some 2 ∧
+    (s.slots 0).waiting[0]? = some 1 ∧ (s.slots 0).waiting[1]? = some 2 := by
+  have h : ∃ s, run cfg0 Latch.init [.genLock 10 [k1, k2], .genLock 11 [k2], .genLock 12 [k1], .acquire 0, .acquire 0,
+      .acquire 1, .acquire 2] = some s ∧ (s.slots 0).waiting.find? (awaits s k1) = some 2 ∧
+    (s.slots 0).waiting[0]? = some 1 ∧ (s.slots 0).waiting[1]? = some 2 := by latch_eval2
+  obtain ⟨s, hs, h1⟩ := h
+  exact ⟨s, reachable_run _ .init hs, h1⟩
+
+/-- hypotheses of `arrivals_on_other_keys_do_not_delay` / `progress_within`: S = {lock 0 on k1}, an arrival on k2 -/
+example : ∃ s s', Reachable cfg0 s ∧ Sep s (fun l => l == 0) ∧
+    RunSep cfg0 (fun l => l == 0) s [.genLock 11 [k2], .acquire 1, .acquire 0] ∧
+    run cfg0 s [.genLock 11 [k2], .acquire 1, .acquire 0] = some s' ∧
+    ∃ lk, s.locks 0 = some lk ∧ lk.phase ≠ .done := by
+  have h : ∃ s, run cfg0 Latch.init [.genLock 10 [k1]] = some s ∧ Sep s (fun l => l == 0) ∧
+    RunSep cfg0 (fun l => l == 0) s [.genLock 11 [k2], .acquire 1, .acquire 0] ∧
+    (∃ s', run cfg0 s [.genLock 11 [k2], .acquire 1, .acquire 0] = some s') ∧
+    ∃ lk, s.locks 0 = some lk ∧ lk.phase ≠ .done := by
+    latch_eval2
+    refine ⟨?_, ?_⟩
+    · intro l l' _ _ _ hl _ hl' _ _ _; subst hl; subst hl'; rfl
+    · intro l lk k _ hlk hk; subst hlk; subst hk; simp
+  obtain ⟨s, hs, h1, h2, ⟨s', h3⟩, h4⟩ := h
+  exact ⟨s, s', reachable_run _ .init hs, h1, h2, h3, h4⟩
+
+/-- hypotheses of `stale_exact_wakeup`: lock 1 (start 11) blocked on k1; lock 0 releases with commit 20 and wakes it -/
+example : ∃ s s' lkw lkw', Reachable cfg0 s ∧ step cfg0 s (.releaseSlot 0) = some s' ∧ s.locks 1 = some lkw ∧
+    lkw.phase = .waiting ∧ lkw.nextKey = some k1 ∧ s'.locks 1 = some lkw' ∧ lkw'.phase = .woken := by
+  have h : ∃ s, run cfg0 Latch.init [.genLock 10 [k1], .genLock 11 [k1], .acquire 0, .acquire 1, .unlock 0 20] = some s ∧
+      ∃ s' lkw lkw', step cfg0 s (.releaseSlot 0) = some s' ∧ s.locks 1 = some lkw ∧
+      lkw.phase = .waiting ∧ lkw.nextKey = some k1 ∧ s'.locks 1 = some lkw' ∧ lkw'.phase = .woken := by latch_eval2
+  obtain ⟨s, hs, s', lkw, lkw', h1⟩ := h
+  exact ⟨s, s', lkw, lkw', reachable_run _ .init hs, h1⟩
 
 end CGV.Props.C17
